@@ -66,7 +66,11 @@ func ncInit(s godi.Scope, _ *ncSingleton) {
 	_ = child.Close()
 }
 
-func runC09NestedCreate(c *eng.Ctx, next func() (int, bool)) {
+func runC09NestedCreate(c *eng.Ctx, next func() (int, bool)) { runNestedCreate(c, "C09", next) }
+
+// runNestedCreate: the same executions judged for C09 (deadlock, documented errors) and for C13
+// (an operation that overlaps a Close never hangs and reports the disposed error or completes).
+func runNestedCreate(c *eng.Ctx, prop string, next func() (int, bool)) {
 	for _, variant := range []string{"close-reaches-its-last-step-first", "close-starts-after-release"} {
 		for rep := 0; rep < c.Pick(3, 10); rep++ {
 			idx, mine := next()
@@ -74,12 +78,16 @@ func runC09NestedCreate(c *eng.Ctx, next func() (int, bool)) {
 				continue
 			}
 			c.R.Begin(idx)
-			ncCase(c, idx, variant, rep)
+			ncCase(c, prop, idx, variant, rep)
 		}
 	}
 }
 
-func ncCase(c *eng.Ctx, idx int, variant string, rep int) {
+func ncCase(c *eng.Ctx, prop string, idx int, variant string, rep int) {
+	hang := "deadlock"
+	if prop == "C13" {
+		hang = "hang"
+	}
 	feat := "scope-opened-inside-a-scope-initializer-vs-provider-close:" + variant
 	w := &ncWorld{reached: make(chan struct{}), release: make(chan struct{}), singDone: make(chan struct{})}
 	ncMu.Lock()
@@ -131,7 +139,7 @@ func ncCase(c *eng.Ctx, idx int, variant string, rep int) {
 	go func() { wg.Wait(); close(done) }()
 	if v := awaitOrDiagnose(done, 30*time.Second); !v.Done {
 		if v.Deadlock {
-			c.R.Violation(eng.Violation{Prop: "C09", Clause: "deadlock", Sig: "C09/deadlock:" + feat + ":" + innermostGodiFn(v.Dump), Case: idx, CaseID: feat,
+			c.R.Violation(eng.Violation{Prop: prop, Clause: hang, Sig: prop + "/" + hang + ":" + feat + ":" + innermostGodiFn(v.Dump), Case: idx, CaseID: feat,
 				Detail: fmt.Sprintf("%s: CreateScope (whose scope initializer opens a child scope) and provider.Close never returned; goroutines stuck inside godi:\n%s", feat, v.Dump)})
 		} else {
 			c.R.Inconclusive(idx, "nested-create case did not finish within the watchdog and no goroutine is provably stuck inside godi")
@@ -143,14 +151,14 @@ func ncCase(c *eng.Ctx, idx int, variant string, rep int) {
 		return err == nil || errors.Is(err, godi.ErrScopeDisposed) || errors.Is(err, godi.ErrProviderDisposed)
 	}
 	if !ok(outerErr) {
-		c.R.Violation(eng.Violation{Prop: "C09", Clause: "undocumented-error", Sig: "C09/undocumented-error:" + feat, Case: idx, CaseID: feat, Detail: fmt.Sprintf("%s: CreateScope returned %v", feat, outerErr)})
+		c.R.Violation(eng.Violation{Prop: prop, Clause: "undocumented-error", Sig: prop + "/undocumented-error:" + feat, Case: idx, CaseID: feat, Detail: fmt.Sprintf("%s: CreateScope returned %v", feat, outerErr)})
 	}
 	if closeErr != nil {
-		c.R.Violation(eng.Violation{Prop: "C09", Clause: "undocumented-error", Sig: "C09/undocumented-error:" + feat + ":provider-close", Case: idx, CaseID: feat, Detail: fmt.Sprintf("%s: provider.Close returned %v", feat, closeErr)})
+		c.R.Violation(eng.Violation{Prop: prop, Clause: "undocumented-error", Sig: prop + "/undocumented-error:" + feat + ":provider-close", Case: idx, CaseID: feat, Detail: fmt.Sprintf("%s: provider.Close returned %v", feat, closeErr)})
 	}
 	if outer != nil && outerErr == nil {
 		_ = outer.Close()
 	}
 	c.R.Count("nested_create_cases", 1)
-	c.R.End(idx, eng.Hash("c09-nested-create", variant, rep), true)
+	c.R.End(idx, eng.Hash("nested-create", prop, variant, rep), true)
 }
